@@ -87,7 +87,9 @@ def gen_case(rng, i):
             s["as"] = "poly"
         else:
             s = gen.gen_const_struct(rng, shape=shape, kind=kind)
-            s["as"] = gen.choice(rng, ["ndarray", "list"]) if shape else "scalar"
+            # read-only arrays are ordinary operands too (seeded change C04-16: the constructor stopped asking for a writable
+            # copy while the compiled writer still needs one)
+            s["as"] = gen.choice(rng, ["ndarray", "ndarray_ro", "list"]) if shape else gen.choice(rng, ["scalar", "ndarray_ro"])
         ops.append(s)
     flavour = rng.random()
     if flavour < .12:
@@ -206,8 +208,36 @@ def check(ctx, c, model, monitor=None):
         ctx.fail(c, f"re-aligning raised {type(err).__name__}: {err}", tags + ["idempotence", "raises"])
 
 
+def run_default_names(ctx):
+    """a number or array operand carries the default name *in force at the call*: histories that align nameless operands
+    under one `default_varname`, then under another, then under the first again (seeded change C04-15: the default name
+    tuple memoised per number of indeterminates, whatever the option said)"""
+    steps = [("q", None), ("x", r"x\d+"), ("q", None), ("y", r"[xy]\d+"), ("x", r"[xy]\d+")]
+    for var, flt in steps:
+        opts = {"default_varname": var} if flt is None else {"default_varname": var, "varname_filter": flt}
+        with numpoly.global_options(**opts):
+            v0, v2 = numpoly.symbols(f"{var}0"), numpoly.symbols(f"{var}2")
+            probes = [("align_indeterminants(4*v0+1, 5)", lambda: numpoly.align_indeterminants(4 * v0 + 1, 5), (f"{var}0",)),
+                      ("align_polynomials(3*v2**2+1, 5, [1.5, 2.5])", lambda: numpoly.align_polynomials(3 * v2 ** 2 + 1, 5, [1.5, 2.5]), (f"{var}0", f"{var}2")),
+                      ("align_exponents(v2, 7)", lambda: numpoly.align_exponents(v2, 7), (f"{var}0", f"{var}2")),
+                      ("align_indeterminants(5, [1, 2])", lambda: numpoly.align_indeterminants(5, [1, 2]), (f"{var}0",))]
+            for label, f, want in probes:
+                ctx.evaluations += 1
+                ctx.count("default-names")
+                case = {"kind": "default-names", "default_varname": var, "call": label}
+                try:
+                    res = f()
+                except Exception as err:  # noqa: BLE001
+                    ctx.fail(case, f"{label} under default_varname={var!r} raised {type(err).__name__}: {str(err)[:120]}", ["default-names", "raises"])
+                    continue
+                got = {tuple(r.names) for r in res}
+                if got != {want}:
+                    ctx.fail(case, f"{label} under default_varname={var!r}: names {sorted(got)}, the union of the operands' names is {want}", ["default-names", "names"])
+
+
 def run(ctx):
     ctx.rule = RULE
+    run_default_names(ctx)
     rng = ctx.rng("cases")
     n = 1500 if ctx.quick else 25000
     cases = [gen_case(rng, i) for i in range(n)]
@@ -224,5 +254,8 @@ def run(ctx):
 
 def replay(ctx, case):
     n = len(ctx.failures)
+    if case.get("kind") == "default-names":
+        run_default_names(ctx)
+        return ctx.failures[n]["what"] if len(ctx.failures) > n else None
     check(ctx, case, run_driver([driver_case(case)])[0])
     return ctx.failures[n]["what"] if len(ctx.failures) > n else None
